@@ -277,3 +277,63 @@ Theorem C01_exact_slope_characterisation : forall xa ya xb yb w, ya < yb ->
   (exact_slope (xa, ya, xb, yb, w) = true <-> ((yb - ya) / Z.gcd (xb - xa) (yb - ya) | 16384)).
 Proof. exact exact_slope_iff_reduced. Qed.
 Print Assumptions C01_exact_slope_characterisation.
+
+(* ---- from the public call down to the exact polygon (FillExact.v) ---- *)
+Require Import RQ.F32 RQ.PathF RQ.Pixel RQ.Shader RQ.Target RQ.FillProofs RQ.Contains RQ.ContainsF32 RQ.FillExact.
+
+(* (19) THE PROPERTY, end to end, for every polygon whose edges have slopes exact in 16.16 - decided on the PATH: any finite
+   f32 vertices (on or off the quarter grid; path_vertices are the integers f32_to_dot2 hands to the rasteriser), any
+   number of subpaths, any self-intersection, both rules, every surface size, the polygon anywhere relative to it:
+   DrawTarget::fill with opaque white over a transparent surface returns, and the alpha of every pixel inside the bounds is
+   16*K (255 at K = 16; or 16*K-1), K = the number of its 16 sample cells inside the exact polygon with every crossing
+   rounded to the nearest quarter; r = g = b = a; every other pixel stays 0 *)
+Theorem C01_fill_of_exact_slope_polygon_is_exact_supersampling : forall w h p, 0 <= w -> 0 < h ->
+  is_polygon p = true -> path_finiteb p = true -> path_exact_slopes p = true ->
+  let gs := poly_segs xf_identity p in
+  let r := add_segs (rast_new w h) gs in
+  let b := get_bounds r in
+  let G := map seg_geom gs in
+  exists st', fill (dt_new w h (repeat 0 (Z.to_nat (w * h)))) p (Solid white) (mk_opts SrcOver f1 true) = Ok st' /\
+    d_w st' = w /\ d_h st' = h /\ zlen (d_buf st') = w * h /\
+    forall X Y, 0 <= X < w -> 0 <= Y < h ->
+      let v := zn (d_buf st') (Y * w + X) in
+      if r_in b X Y then
+        let K := Kpix_exact (p_winding p) G (x0 b * 4) (y0 b * 4) (Y - y0 b) (X - x0 b) in
+        0 <= K <= 16 /\ (Z.shiftr v 24 = Z.min 255 (16 * K) \/ Z.shiftr v 24 = 16 * K - 1) /\
+        v = gray (Z.shiftr v 24)
+      else v = 0.
+Proof. exact fill_polygon_coverage_path_exact_slopes. Qed.
+Print Assumptions C01_fill_of_exact_slope_polygon_is_exact_supersampling.
+
+(* (20) antialiasing off *)
+Theorem C01_fill_of_exact_slope_polygon_aliased_is_exact_sampling : forall w h p, 0 <= w -> 0 < h ->
+  is_polygon p = true -> path_finiteb p = true -> path_exact_slopes p = true ->
+  let gs := poly_segs xf_identity p in
+  let r := add_segs (rast_new w h) gs in
+  let b := get_bounds r in
+  let G := map seg_geom gs in
+  exists st', fill (dt_new w h (repeat 0 (Z.to_nat (w * h)))) p (Solid white) (mk_opts SrcOver f1 false) = Ok st' /\
+    d_w st' = w /\ d_h st' = h /\ zlen (d_buf st') = w * h /\
+    forall X Y, 0 <= X < w -> 0 <= Y < h ->
+      let v := zn (d_buf st') (Y * w + X) in
+      if r_in b X Y then
+        let y := y0 b * 4 + 4 * (Y - y0 b) in
+        v = (if cov_exact (p_winding p) (filter (g_live y) G) y (4 * (X - x0 b) + 3 + x0 b * 4) then white else 0)
+      else v = 0.
+Proof. exact fill_polygon_coverage_aliased_path_exact_slopes. Qed.
+Print Assumptions C01_fill_of_exact_slope_polygon_aliased_is_exact_sampling.
+
+(* (21) octilinear paths (every edge horizontal, vertical or diagonal) are in the class *)
+Theorem C01_octilinear_paths_have_exact_slopes : forall p,
+  is_polygon p = true -> path_finiteb p = true -> path_octilinear p = true ->
+  all_exact_slopes (map seg_geom (poly_segs xf_identity p)) = true.
+Proof. exact path_octilinear_all_exact_slopes. Qed.
+Print Assumptions C01_octilinear_paths_have_exact_slopes.
+
+(* (22) for quarter-grid vertices the edge list is the integer polygon itself (swap flags included), so r, b, G and K above
+   are functions of the integer polygon only *)
+Theorem C01_grid_path_is_its_integer_polygon : forall B ops zops rule, B <= i32_max ->
+  grid_ops_within B ops zops -> poly_segs xf_identity (mk_path ops rule) = zpoly_segs zops.
+Proof. exact grid_poly_segs. Qed.
+Print Assumptions C01_grid_path_is_its_integer_polygon.
+(* the same under the gap hypothesis or for mixed polygons: fill_polygon_coverage_gap_all, fill_polygon_coverage_exact_or_gap *)
